@@ -9,7 +9,9 @@ META = {
                    "grouping by market version yields one group per version holding exactly the requests of that version in request order; every "
                    "package holds at most the regenerated per-call limit (200/60/60/60), is not empty, and contains only orders requested with its "
                    "market version; for every version the packages of that version, read in sending order, are exactly the requests of that version "
-                   "in request order (so every accepted request is in exactly one package); the queue grows by exactly those packages with the "
+                   "in request order (so every accepted request is in exactly one package); as multisets the packages of a pending list are a "
+                   "permutation of its requests, and execute() appends to the handler queue packages holding exactly the pending requests of the "
+                   "transaction, each once, leaving what was queued before untouched; the queue grows by exactly those packages with the "
                    "matching kind, market and client; execute() leaves all four pending lists empty; the pending flag is set whenever something is "
                    "waiting (invariant over place/cancel/update/replace/execute) so leaving the transaction sends it; an accepted request is filed "
                    "exactly once and anything else files nothing; a request rejected by the order's guard changes no order, trade, market or queue "
